@@ -21,7 +21,7 @@ ASSUMPTIONS = ["the scheduler serialises real threads; a race whose window lies 
                "oracle (5) (screen = printed lines in file order + last frame) is evaluated for Live displays whose "
                "frames carry unique tokens; see the known finding about the print-versus-refresh window",
                "a wall-clock watchdog (30 s per schedule) firing is inconclusive"]
-REQUIRED = ["mon.schedules", "mon.exactly_once_contiguous", "mon.capture_isolation", "mon.record_order",
+REQUIRED = ["mon.nonterminal_final_frame", "mon.schedules", "mon.exactly_once_contiguous", "mon.capture_isolation", "mon.record_order",
             "mon.deadlock_detector", "mon.screen_replay", "mon.context_switches"]
 MIN_NONTRIVIAL = {"quick": 800, "thorough": 50000}
 
@@ -135,6 +135,8 @@ def wl_schedules(ctx, rng, case_no):
     from rv.sched import scheduler as S
     display = rng.choice(["none", "none", "live", "live", "live_auto", "progress", "progress_auto"])
     terminal = True if display != "none" else rng.random() < 0.6
+    if display.startswith("live") and rng.random() < 0.2:
+        terminal = False        # a live display whose console writes to a file / pipe: only the final frame is written
     prog = gen_program(rng, display)
     strat_kind = rng.choice(["pct2", "pct3", "pct3", "pct4", "random", "random"])
     sseed = rng.randrange(1 << 30)
@@ -143,6 +145,22 @@ def wl_schedules(ctx, rng, case_no):
     else:
         strategy = S.PCT(sseed, depth=int(strat_kind[3]), est_steps=rng.choice([300, 1000, 3000]))
     execute(ctx, prog, display, terminal, rng.choice([0, 1, 2, 3]), rng.choice([6, 12]), strategy, strat_kind, sseed)
+
+
+def wl_nonterminal_live(ctx, rng, case_no):
+    """Live displays with a refresh thread on a console that is NOT a terminal (output piped to a file): nothing is
+    drawn while it runs, the final frame is written once at stop.  The refresh thread and stop() meet in a narrow
+    window, so this configuration gets many cheap schedules of its own."""
+    from rv.sched import scheduler as S
+    prog = gen_program(rng, "live_auto")
+    prog = [[op for op in ops if op[0] not in ("start", "stop")] or [["print", "T%d.0" % th, 1]] for th, ops in enumerate(prog)]
+    strat_kind = rng.choice(["pct2", "pct3", "random", "random"])
+    sseed = rng.randrange(1 << 30)
+    if strat_kind == "random":
+        strategy = S.RandomWalk(sseed, switch_prob=rng.choice([0.02, 0.1, 0.3]))
+    else:
+        strategy = S.PCT(sseed, depth=int(strat_kind[3]), est_steps=rng.choice([300, 1000, 3000]))
+    execute(ctx, prog, "live_auto", False, rng.choice([1, 2, 3, 5]), 12, strategy, strat_kind, sseed)
 
 
 def wl_dfs(ctx, rng, case_no):
@@ -422,6 +440,22 @@ def execute(ctx, prog, display, terminal, firings, height, strategy, strat_kind,
             ctx.violation(mech, dict(wit, screen=got[-20:], want_marks=want[-20:], last_frame=last_frame,
                                      frame_on_screen=frame_on_screen, tainted=tainted))
             return
+    # (5n) a Live display on a console that is not a terminal draws nothing while it runs and writes its frame once
+    # when it stops (nothing if transient): all frame tokens in the file belong to ONE frame, each exactly once
+    if display.startswith("live") and not terminal and not restarts:
+        ctx.count("mon.nonterminal_final_frame")
+        ids = _FRAME.findall(stream)
+        labels = {i.rsplit("-", 1)[0] for i in ids}
+        if "\x1b[" in stream.replace("\x1b[0m", "") and any(c in stream for c in ("\x1b[2K", "\x1b[1A", "\x1b[?25")):
+            ctx.violation("cursor-control-written-to-non-terminal:%s" % display, dict(wit, stream=stream[-400:]))
+            return
+        if transient and ids:
+            ctx.violation("transient-display-left-a-frame-in-non-terminal-output:%s" % display, dict(wit, frame_tokens=ids[:12]))
+            return
+        if len(labels) > 1 or len(ids) != len(set(ids)):
+            ctx.violation("final-frame-written-more-than-once-to-non-terminal:%s" % display,
+                          dict(wit, frame_tokens=ids[:20], stream=stream[-600:]))
+            return
     # (5') Progress displays: no printed line lost / overwritten on screen, and exactly the rows of the last drawn
     # frame at the bottom (task descriptions are the tokens K<n>)
     if display.startswith("progress") and terminal and not restarts:
@@ -493,6 +527,7 @@ def taint(events, writes):
 def workloads(tier):
     big = tier == "thorough"
     return [WL("schedules", wl_schedules, 400000 if big else 6000),
+            WL("nonterminal_live", wl_nonterminal_live, 600000 if big else 24000),
             WL("bounded_preemption_dfs", wl_dfs, 2000 if big else 16)]
 
 
